@@ -714,7 +714,7 @@ func c11Ties(c *Ctx, p *Prog, fn *ssa.Function) {
 						usesExact = pS != nil && strings.Contains(pS.String(), "UDist")
 					} else {
 						// error returns: ErrSamplesEqual from the exact branch mentions len(T)==1 atom
-						usesExact = strings.Contains(o.AssignStr(), "len(")&& strings.Contains(o.AssignStr(), "== 1")
+						usesExact = strings.Contains(o.AssignStr(), "len(") && strings.Contains(o.AssignStr(), "== 1")
 					}
 				}
 				lim := "plain"
@@ -973,8 +973,8 @@ func c11Dist(c *Ctx, p *Prog) {
 				zeroR := func(v ssa.Value) bool { k, ok := constInt(v); return ok && k == 0 }
 				switch {
 				case cmp.Op == token.LSS && sameValue(cmp.X, bo.X) && zeroR(cmp.Y) && !f.True, // !(x < 0)
-					cmp.Op == token.GEQ && sameValue(cmp.X, bo.X) && zeroR(cmp.Y) && f.True, // x >= 0
-					cmp.Op == token.LEQ && zeroR(cmp.X) && sameValue(cmp.Y, bo.X) && f.True, // 0 <= x
+					cmp.Op == token.GEQ && sameValue(cmp.X, bo.X) && zeroR(cmp.Y) && f.True,  // x >= 0
+					cmp.Op == token.LEQ && zeroR(cmp.X) && sameValue(cmp.Y, bo.X) && f.True,  // 0 <= x
 					cmp.Op == token.GTR && zeroR(cmp.X) && sameValue(cmp.Y, bo.X) && !f.True: // !(0 > x)
 					guarded = true
 				}
